@@ -7,7 +7,7 @@ from ..sched import replay_case, run_case
 from ..spaces import all_res, all_seq, cflag_variants, desc_prio, shard_iter
 
 ID = "C08"
-BUDGET = {"quick": 100, "thorough": 1800}
+BUDGET = {"quick": 100, "thorough": 900}
 MONITORS = [mon_c08]
 
 
@@ -65,8 +65,18 @@ def nontrivial(view):
     return None
 
 
+def all_cases(tier):
+    import itertools
+
+    from ..spaces import cross_families, foreign_quick_cases
+    its = [cases(tier), cross_families(tier)]
+    if tier != "quick":
+        its.append(foreign_quick_cases("c08"))
+    return itertools.chain(*its)
+
+
 def run_shard(tier, k, n, acc):
-    for c in shard_iter(cases(tier), k, n, acc):
+    for c in shard_iter(all_cases(tier), k, n, acc):
         run_case(acc, c, MONITORS, nontrivial)
 
 
